@@ -222,6 +222,7 @@ type pathState struct {
 	inconcl []string
 	summary *PathSummary
 	nfresh  int
+	floatToks []floatTok
 }
 
 func newPathState(ex *Explorer, sol *Solver, prefix []Decision) *pathState {
